@@ -15,6 +15,7 @@ import os
 
 from .lib import *
 from .facts import strip_generics
+from .sem import last_seg
 
 VERIF = os.path.dirname(os.path.dirname(os.path.abspath(__file__)))
 STRUCTS = {
@@ -212,6 +213,7 @@ def call_rule_for(pid):
                      '%s no longer calls %s (neither directly nor through a helper): a call of a function that writes state was removed' % (x, y), where(fx[0]))
         ob.require_count(n, 1, 'reviewed calls of state-writing functions for %s' % pid)
         debug_purity(W, ob)
+        new_call_rule_for(pid)(W, ob)
     return rule
 
 
@@ -252,3 +254,292 @@ def debug_purity(W, ob):
                         '%s calls %s inside a debug_assert!/tracing macro: the call changes state, but it is compiled out (or not evaluated) in builds without debug assertions / '
                         'without a subscriber at that level -- debug and release builds run different programs' % (short(host), short(t.callee.best or '?')), where(f, t.line))
     ob.require_count(n, 15, 'calls inside debug-only macros')
+
+
+# ---------------------------------------------------------------------------------------------------------------------------------------
+# expression inventory: arithmetic handed to calls / stored in fields / used as an index, and what closures return
+# ---------------------------------------------------------------------------------------------------------------------------------------
+ARITH = {'Add', 'Sub', 'Mul', 'Div', 'Rem', 'Shl', 'Shr', 'BitAnd', 'BitOr', 'BitXor'}
+SKIP_MACROS = {'trace', 'debug', 'warn', 'info', 'error', 'event', 'format_args', 'panic', 'assert', 'assert_eq', 'assert_ne', 'debug_assert', 'debug_assert_eq',
+               'debug_assert_ne', 'unreachable', 'const_format_args', 'panic_2021'}
+
+
+def _has_arith(e):
+    t = e[0]
+    if t == 'bin':
+        return e[1] in ARITH or _has_arith(e[2]) or _has_arith(e[3])
+    if t == 'un':
+        return _has_arith(e[2])
+    if t == 'call':
+        return any(_has_arith(a) for a in e[2])
+    if t in ('min', 'max'):
+        return any(_has_arith(a) for a in e[1])
+    if t == 'phi':
+        return any(_has_arith(a[1]) for a in e[1])
+    if t == 'agg':
+        return any(_has_arith(v) for _, v in e[2])
+    if t == 'fld':
+        return _has_arith(e[1])
+    return False
+
+
+def _cx(e):
+    """canonical text of an expression: sums and products are flattened, constants folded and operands sorted, so `1 + x`, `x + 1` and `x - (-1)` read the same;
+    non-commutative operators keep their operand order"""
+    from .sem import key as _key
+    t = e[0]
+    if t == 'int':
+        return str(e[1])
+    if t == 'bin' and e[1] in ('Add', 'Sub'):
+        terms, const = [], 0
+
+        def walk(x, sign):
+            nonlocal const
+            if x[0] == 'bin' and x[1] == 'Add':
+                walk(x[2], sign)
+                walk(x[3], sign)
+            elif x[0] == 'bin' and x[1] == 'Sub':
+                walk(x[2], sign)
+                walk(x[3], -sign)
+            elif x[0] == 'int':
+                const += sign * x[1]
+            elif x[0] == 'cast' and len(x) > 1 and isinstance(x[1], tuple):
+                walk(x[1], sign)
+            else:
+                terms.append(('+' if sign > 0 else '-') + _cx(x))
+        walk(e, 1)
+        terms.sort()
+        return '(' + ' '.join(terms) + (' %+d' % const if const else '') + ')'
+    if t == 'bin' and e[1] in ('Mul', 'BitAnd', 'BitOr', 'BitXor'):
+        ops = []
+
+        def walk2(x):
+            if x[0] == 'bin' and x[1] == e[1]:
+                walk2(x[2])
+                walk2(x[3])
+            else:
+                ops.append(_cx(x))
+        walk2(e)
+        return '(' + (' %s ' % e[1]).join(sorted(ops)) + ')'
+    if t == 'bin':
+        return '(%s %s %s)' % (_cx(e[2]), e[1], _cx(e[3]))
+    if t == 'un':
+        return '%s(%s)' % (e[1], _cx(e[2]))
+    if t == 'call':
+        from .sem import short_path
+        return '%s(%s)' % (short_path(e[1]), ', '.join(_cx(a) for a in e[2]))
+    if t in ('min', 'max'):
+        return '%s(%s)' % (t, ', '.join(sorted(_cx(a) for a in e[1])))
+    if t == 'agg':
+        return '%s{%s}' % (e[1], ', '.join('%s: %s' % (f, _cx(v)) for f, v in e[2]))
+    if t == 'fld':
+        return '%s.%s' % (_cx(e[1]), '.'.join(e[2]))
+    if t == 'cast' and len(e) > 1 and isinstance(e[1], tuple):
+        return _cx(e[1])
+    return _key(e)
+
+
+def _canon(e):
+    import re
+    from .sem import atoms_of_cond, dnf_str
+    s = None
+    if e[0] == 'bin' and e[1] in ('Eq', 'Ne', 'Lt', 'Le', 'Gt', 'Ge') or e[0] == 'un' and e[1] == 'Not':
+        try:
+            d = atoms_of_cond(e, True)
+            if d:
+                s = 'COND ' + dnf_str(d)
+        except Exception:
+            s = None
+    if s is None:
+        s = _cx(e)
+    return re.sub(r'\b\w*#\d+', 'v', re.sub(r'@bb\d+', '', s))
+
+
+def compute_expressions(W):
+    """{function: {site key: [canonical expressions]}}; site key = 'store <field path>' | 'arg <callee>#<i>' | 'closure -> <adaptor it is handed to>'"""
+    from .facts import Place, strip_generics
+    per = {}
+    # which adaptor is each closure handed to
+    handed = {}
+    for f in W.fns():
+        if f.derived:
+            continue
+        for t in f.calls():
+            for a in t.args:
+                c = closure_of_operand(W, f, a)
+                if c and c[0] == 'closure':
+                    handed[c[1].path] = last_seg(t.callee.best) if t.callee.indirect is None else 'indirect'
+    for f in W.fns():
+        if f.derived or 'sessions::builder' in f.path or 'tests' in f.path:
+            continue
+        cx = W.ctx(f)
+        host = short(f.parent if f.kind == 'closure' and f.parent else f.path)
+        out = per.setdefault(host, {})
+        is_macro_closure = False
+        for t in f.calls():
+            if any(m.split('::')[-1] in SKIP_MACROS for m in t.macros):
+                if f.kind == 'closure':
+                    is_macro_closure = True
+                continue
+            callee = short(t.callee.best or '?') if t.callee.indirect is None else 'indirect'
+            for i, a in enumerate(t.args):
+                try:
+                    e = cx.expr_operand(a)
+                except Exception:
+                    continue
+                if e[0] == 'bin' and e[1] in ARITH or (e[0] in ('min', 'max')) or (e[0] == 'agg' and e[1] in ('Range', 'RangeTo', 'RangeFrom', 'RangeInclusive') and _has_arith(e)):
+                    out.setdefault('arg %s#%d' % (callee, i), set()).add(_canon(e))
+        for s_ in f.stmts():
+            if s_.k == 'assign' and s_.place.proj and not any(m.split('::')[-1] in SKIP_MACROS for m in s_.span['mac']):
+                try:
+                    e = cx.expr_rvalue(s_.rv)
+                except Exception:
+                    continue
+                if _has_arith(e) and e[0] in ('bin', 'min', 'max', 'call', 'un'):
+                    tgt = cx.ap_of_place(s_.place).s(f, generic=True)
+                    out.setdefault('store %s' % tgt, set()).add(_canon(e))
+        if f.kind == 'closure' and not is_macro_closure and f.path in handed:
+            try:
+                out.setdefault('closure -> %s' % handed[f.path], set()).add(_canon(cx.expr_place(Place({'l': 0, 'p': []}))))
+            except Exception:
+                pass
+    return {k: {k2: sorted(v2) for k2, v2 in v.items()} for k, v in per.items() if v}
+
+
+def expr_rule_for(pid):
+    """pinned arithmetic: at every site the table knows -- a field store, an argument position of a callee, a closure handed to a given adaptor -- the canonical
+    form of the expression (linear normal form for integer arithmetic, guard normal form for predicates; no local names) is one of the reviewed forms for
+    that site.  Sites the table does not know (new stores, new calls, iterator rewrites that create new closures) are NOT this rule's business -- the state,
+    call and vocabulary inventories look at those -- so a respelling that moves the computation elsewhere does not alarm; a changed literal, operator, operand
+    order, factor, prune bound, predicate or sort key at a known site does."""
+    def rule(W, ob):
+        tab = _tab('expressions.json')['functions']
+        cur = compute_expressions(W)
+        n = 0
+        for fn, sites_ in sorted(cur.items()):
+            if pid not in CALLER_PROPS.get(fn.split('::')[0], []):
+                continue
+            known = tab.get(fn, {})
+            for site, es in sorted(sites_.items()):
+                if site not in known:
+                    continue
+                for e in es:
+                    n += 1
+                    ob.check(e in known[site], 'expression|%s|%s' % (fn, site), '%s, %s: `%s` (reviewed)' % (fn, site, e[:70]),
+                             '%s, %s: the expression is now `%s`; reviewed: %s -- a literal, an operator, the order of operands, a factor or a predicate / key changed'
+                             % (fn, site, e[:140], ' | '.join('`%s`' % x[:100] for x in known[site][:3])), None)
+        ob.require_count(n, 1, 'pinned expressions for %s' % pid)
+    return rule
+
+
+# ---------------------------------------------------------------------------------------------------------------------------------------
+# trait-impl inventory
+# ---------------------------------------------------------------------------------------------------------------------------------------
+SEMANTIC_TRAITS = {'PartialEq', 'Eq', 'Hash', 'Ord', 'PartialOrd', 'Clone', 'Copy', 'Default', 'From', 'Into', 'Deref', 'DerefMut', 'Drop', 'InputPredictor', 'Borrow', 'AsRef'}
+
+
+def compute_impls(W):
+    res = {}
+    for f in W.fx.fn_list:
+        if not (f.path.startswith('<') and ' as ' in f.path) or 'promoted' in f.path or f.kind == 'closure':
+            continue
+        ty = f.path[1:].split(' as ')[0].split('::')[-1].split('<')[0]
+        tr = f.path.split(' as ')[1].split('>::')[0].split('::')[-1].split('<')[0]
+        if ty.startswith('__') or tr not in SEMANTIC_TRAITS:
+            continue
+        res['%s: %s' % (ty, tr)] = 'derived' if f.derived else 'manual'
+    return res
+
+
+def impl_rule(W, ob):
+    """equality, hashing, ordering, cloning, defaults and conversions mean what the table says: each (type, trait) pair is derived or hand-written as reviewed. A derive
+    replaced by a hand-written impl (equality by address only, a hash that ignores a field, a Default that differs from the blank value) changes what map keys collide,
+    which inputs 'match' and what a constructor starts from, with every call site unchanged."""
+    tab = _tab('impls.json')['impls']
+    cur = compute_impls(W)
+    n = 0
+    for k, kind in sorted(cur.items()):
+        n += 1
+        if k not in tab:
+            ob.check(kind == 'derived', 'impl|%s|new' % k, '%s (new, derived)' % k,
+                     '`impl %s for %s` is hand-written and not in the impl inventory (tables/impls.json): what it considers equal / how it hashes, clones or defaults has not been reviewed'
+                     % (k.split(': ')[1], k.split(': ')[0]), None)
+        else:
+            ob.check(tab[k] == kind, 'impl|%s|kind' % k, '%s is %s as reviewed' % (k, kind),
+                     '`impl %s for %s` was %s when reviewed and is now %s: the meaning of equality / hashing / cloning / the default value of that type changed under every call site'
+                     % (k.split(': ')[1], k.split(': ')[0], tab[k], kind), None)
+    ob.require_count(n, 40, 'semantic trait impls')
+    # the bodies of the hand-written impls that no other rule pins
+    from .facts import Place
+    from .sem import key as _key
+    PINS = {'<PredictRepeatLast as InputPredictor>::predict': ('arg1', 'PredictRepeatLast repeats the previous input'),
+            '<PredictDefault as InputPredictor>::predict': ('Default::default()', 'PredictDefault predicts the default input'),
+            '<network::messages::InputAck as std::default::Default>::default': ('InputAck{ack_frame: NULL_FRAME}', 'a blank ack acknowledges nothing'),
+            '<time_sync::TimeSync as std::default::Default>::default': ('TimeSync{local: repeat(0), remote: repeat(0)}', 'time sync starts from zero advantage')}
+    byp = {f.path: f for f in W.fx.fn_list}
+    for path, (want, why) in PINS.items():
+        f = byp.get(path) or next((g for q, g in byp.items() if q.endswith(path.split('::', 1)[-1]) and path.split(' as ')[0].split('::')[-1] in q), None)
+        if f is None:
+            ob.fail('impl-body|%s|missing' % path, 'hand-written impl %s not found (anchor)' % path, None)
+            continue
+        got = _key(W.ctx(f).expr_place(Place({'l': 0, 'p': []})))
+        ob.check(got == want, 'impl-body|%s' % path, '%s (%s)' % (why, want), '%s now returns `%s` (reviewed: `%s`): %s no longer holds' % (path, got[:120], want, why), where(f))
+
+
+# ---------------------------------------------------------------------------------------------------------------------------------------
+# new calls between functions that both existed when the tables were reviewed (or into third-party crates)
+# ---------------------------------------------------------------------------------------------------------------------------------------
+STD_CRATES = {'std', 'core', 'alloc'}
+LOG_CRATES = {'tracing', 'tracing_core'}
+
+
+def compute_all_edges(W):
+    fns = set()
+    edges = set()
+    for f in W.fns():
+        if f.derived or 'tests' in f.path:
+            continue
+        host = short(f.parent if f.kind == 'closure' and f.parent else f.path)
+        if f.kind != 'closure':
+            fns.add(host)
+        for t in f.calls():
+            if t.callee.indirect is not None or '{closure' in (t.callee.best or '') or any(m.split('::')[-1] in SKIP_MACROS for m in t.macros):
+                continue
+            tg = [g for g in W.cg.targets(t.callee) if g.kind != 'closure' and not g.derived]
+            if tg:
+                for g in tg:
+                    if short(g.path) != host:
+                        edges.add((host, short(g.path)))
+            else:
+                crate = t.callee.rcrate or t.callee.crate or ''
+                if crate and crate not in STD_CRATES and crate not in LOG_CRATES and crate != 'ggrs':
+                    edges.add((host, 'extern ' + short(t.callee.best or '?')))
+                elif crate == 'ggrs' or (t.callee.best or '').startswith('ggrs::') or '<' in (t.callee.best or '')[:1] and 'ggrs' in (t.callee.best or ''):
+                    # unresolved trait method of a crate trait (e.g. InputPredictor::predict, NonBlockingSocket::send_to)
+                    edges.add((host, 'trait ' + short(t.callee.best or '?')))
+    return sorted(fns), sorted(edges)
+
+
+def new_call_rule_for(pid):
+    """no NEW call between two functions that both existed when the tables were reviewed, and no new call into a third-party crate or through a crate trait: a value that
+    now also passes through the predictor, a decoder of the dependency called from a Debug impl, a second caller of a function with effects.  Calls to or from functions
+    that did not exist then (extracted helpers) are not this rule's business."""
+    def rule(W, ob):
+        tab = _tab('call_edges_all.json')
+        known_fns = set(tab['functions'])
+        known = {tuple(e) for e in tab['edges']}
+        fns, edges = compute_all_edges(W)
+        n = 0
+        for x, y in edges:
+            if pid not in CALLER_PROPS.get(x.split('::')[0], []) and not (pid in ('C08', 'C14') and (y.startswith('extern ') or 'compression' in x)):
+                continue
+            if x not in known_fns:
+                continue
+            if not (y in known_fns or y.startswith('extern ') or y.startswith('trait ')):
+                continue
+            n += 1
+            ob.check((x, y) in known, 'new-call|%s|%s' % (x, y), '%s -> %s (reviewed)' % (x, y),
+                     '%s now calls %s, which it did not when the call inventory was reviewed (tables/call_edges_all.json): a value takes a new route or an effect gets a new trigger'
+                     % (x, y[7:] if y.startswith('extern ') else y), None)
+        ob.require_count(n, 3, 'calls between reviewed functions for %s' % pid)
+    return rule
